@@ -1,10 +1,11 @@
 """C08 — undo restores the document and redo the edit, for every edit history (DESIGN.md section 7 C08, Appendix B)."""
 import json
 from props import c08gen as G
+from props import c08x as X
 
 ID = 'C08'
 GENERATORS = ['gen_undo']
-COQ_TARGETS = ['Props/C08.vo', 'Run/RunC08.vo']
+COQ_TARGETS = ['Props/C08.vo', 'Run/RunC08.vo', 'Run/RunC08X.vo']
 PROPS_MODULE = 'Props.C08'
 THEOREMS = [# (1) framework: any document type, any operations, any equivalence
             'interleaving_sound', 'history_sound', 'undo_all_redo_all', 'undo_k_restores', 'redo_k_restores', 'new_edit_clears_redo',
@@ -13,25 +14,38 @@ THEOREMS = [# (1) framework: any document type, any operations, any equivalence
             'eqv_observable', 'undo_operations_sound', 'layer_change_sound', 'area_op_sound', 'area_mutations_stay_inside', 'api_sound',
             'undo_redo_history', 'undo_all_redo_all_modelled',
             # (3) the code before the fix commits refuted the statement
-            'layerchange_drops_hidden_refuted', 'setchar_alpha_locked_refuted', 'swap_loses_char_refuted']
+            'layerchange_drops_hidden_refuted', 'setchar_alpha_locked_refuted', 'swap_loses_char_refuted',
+            # (4) extension: the full document (palette, fonts, SAUCE, modes) and the remaining undo records
+            'xeqv_is_equivalence', 'xeqv_observable', 'lift_sound', 'lift_undoable', 'undo_operations_sound_x', 'x_api_sound', 'x_undo_redo_history',
+            'known_setfont_witness', 'known_addfont_witness', 'known_fontslot_witness', 'known_sauce_size_witness',
+            'rowcol_exact_roundtrip', 'rowcol_not_invariant']
 SWEEP_LEMMAS = []
 TRUSTED = ['Coq 8.16.1 kernel + vm_compute (model evaluation); no axioms (Print Assumptions: closed)',
            'translator/gen_undo.py + vlib/rustsrc.py: guard-expression translator and the statement templates that pin Layer::set_char/'
            'restore_char/can_set_char/swap_char/get_char, Line::set_char/create, push_undo_action, push_plain_undo, begin_typed_atomic_undo, '
            'AtomicUndoGuard::{new,end_action,drop}, UndoState::{undo,redo}, AtomicUndo::{undo,redo}',
-           'hand-written Model/EditModel.v and Model/EditOps.v, tied to src/editor/*.rs and src/layer.rs by the differential runs of stage C '
-           '(raw `lines` of every layer after every step)',
+           'hand-written Model/EditModel.v, Model/EditOps.v (layer document) and Model/DocModel.v, Model/DocOps.v (full document: palette, font table, '
+           'SAUCE, modes, selection mask and every remaining undo record), tied to src/editor/*.rs, src/layer.rs, src/buffers.rs, src/overlay_mask.rs by the '
+           'differential runs of stage C (raw `lines` of every layer, palette, font table, SAUCE record, modes, selection, mask after every step)',
+           'parameters the model takes from the implementation through harness probes (c08flip, c08flipf, c08probe): flip-x / flip-y character maps per font, '
+           'DOS_DEFAULT_PALETTE, the font behind each ANSI font page / SAUCE font name (as an opaque id = hash of name, size, glyphs), ROTATE_TABLE; '
+           'the theorems hold for EVERY value of these parameters',
            'harness/src/c08.rs (snapshot comparer, history runner, minimiser) and props/c08.py (classification of failures)']
-UNMODELLED = ['per-operation soundness is NOT proved (stages C/S only, the oracle of stage S runs them on the real code) for: merge_layer_down, '
-              'resize_buffer(resize_layer = true) / crop / crop_rect, add_selection_to_mask, inverse_selection, insert/delete row and column, '
-              'scroll_area_*, rotate_layer, stamp_layer_down, paste_clipboard_data / anchor_layer, set_ice_mode, '
-              'set_palette_mode, switch_to_font_page, set/add/remove font, change_font_slot, replace_font_usage',
-              'palette, fonts, SAUCE data, ice/palette/font modes are not part of the Coq document (no modelled operation touches them); '
-              'they are compared by the stage S oracle',
-              'the selection mask (add_selection_to_mask / inverse_selection are unmodelled, so the mask is empty in the modelled histories)',
+UNMODELLED = ['per-operation soundness is NOT proved (stage S only: the oracle runs them on the real code) for: scroll_area_up/down over a PART of the layer '
+              'width (raw row splicing across rows, known finding C08-scroll-area-raw-lines; the model answers "outside" = Err 99 and the '
+              'case is skipped in stage C), add_floating_layer, update_layer_properties, paste_sixel, add_font / set_font with an arbitrary BitFont',
+              'insert/delete row and column are MODELLED and tied by stage C, but proved only as an exact round trip (rowcol_exact_roundtrip); they are not '
+              'invariant under the document equivalence (rowcol_not_invariant, known finding C08-rowcol-raw-lines) and therefore not part of x_undo_redo_history',
+              'outside the model (Err 99, skipped by stage C, run by stage S): replace_font_usage / change_font_slot from font page 0 to another page '
+              '(changes Layer::default_font_page, which the layer model fixes to 0); merge_layer_down of a cell with a TRANSPARENT_COLOR colour over a '
+              'visible cell (Buffer::make_solid_color)',
+              'not part of the Coq document: sixels, hyperlinks, layer transparency / colour / preview offset, the caret attribute (set_ice_mode rewrites it), '
+              'buffer_type, terminal state; the caret font page, selection and selection mask are modelled as non-document state (not compared by xeqv, '
+              'compared by stage C)',
               'undo/redo while an AtomicUndoGuard is still open; push_reverse_undo / undo_caret_position (no public caller can build the operations)']
 ASSUMPTIONS = ['no i32 overflow in coordinate arithmetic (the model computes in Z)',
                'layers carry no sixels / hyperlinks / preview offset and default_font_page = 0 (true for every document the checks build)',
+               'colours of cells are palette indices below 2^31 (no TRANSPARENT_COLOR / direct RGB flag), as in every document the checks build',
                'an operation that reports Err or panics is not part of the history (the oracle restarts the history without it)']
 RULE = ('a case is one history: a document (buffer 6x4 .. 80x25; 1..3 layers with full/ragged/empty rows, offsets incl. negative, visible/hidden/locked/'
         'position-locked/alpha-locked/has-alpha flags, optional SAUCE record) and a sequence of public editing operations with in-range and boundary '
@@ -41,7 +55,11 @@ RULE = ('a case is one history: a document (buffer 6x4 .. 80x25; 1..3 layers wit
         'step with the snapshot recorded when the undo stack had that length), redoes everything, walks randomly over undo/redo incl. the no-op ends, '
         'and checks that an edit after undos empties the redo stack. Stage C: documents with explicit raw rows (incl. content outside `size`) and '
         'histories of the modelled operations interleaved with undo/redo; model and implementation are compared on the raw `lines` of every layer '
-        'after every step, histories that stop at a failing operation are re-run without it. Non-trivial = at least two operations applied.')
+        'after every step, histories that stop at a failing operation are re-run without it. Stage C, full document (props/c08x.py): the same '
+        'documents plus ice / palette / font mode, SAUCE record (matching or not), extra font slots, caret font page; histories over the liftable layer '
+        'operations and every operation of Model/DocOps.v (palette, SAUCE, fonts, modes, merge, stamp, paste with explicit cells, anchor, crop, resize with '
+        'layers, mask operations incl. enumerate_selections with a fixed callback, rotate, insert/delete row/column, whole-width scroll) with undo/redo; '
+        'compared on layers + palette + font table + SAUCE + modes + selection + mask after every step. Non-trivial = at least two operations applied.')
 
 CODE = {1: 'undo-err', 2: 'undo-panic', 3: 'undo-mismatch', 4: 'redo-err', 5: 'redo-panic', 6: 'redo-mismatch', 7: 'stack-length',
         8: 'redo-survives-edit', 9: 'silent-change', 10: 'walk-mismatch', 11: 'walk-err'}
@@ -49,22 +67,36 @@ CAT = {1: 'buffer-size', 2: 'modes', 3: 'palette', 4: 'fonts', 5: 'sauce', 6: 'l
        9: 'layer-size', 10: 'offset', 11: 'cell'}
 
 # ---------------------------------------------------------------------------------------------------------------
-# known classes (known_findings.d/C08.json): decided on the MINIMISED history
+# known classes (known_findings.d/C08.json): decided on the MINIMISED history, each by the PRECONDITION of its defect.
+# `facts` = the bit set harness/src/c08.rs::facts computes while re-running the minimised history on the real code (the state-dependent
+# preconditions: the same predicates as the Coq known classes known_sauce_size / known_addfont / known_setfont / known_fontslot, and the
+# geometry of the scrolled area); the order-dependent precondition of the row/column class is read off the operation names.
 ROWCOL = {'insrow', 'delrow', 'inscol', 'delcol'}
-SCROLL = {'scrup', 'scrdown', 'scrleft', 'scrright'}
+SCROLL = {'scrup', 'scrdown'}      # scroll_area_left / right are proved sound (Proofs/ScrollProofs.v): a failure there is a violation
 SETFONT = {'setfont', 'saucefont'}
 RESIZE = {'resize0', 'resize1', 'crop', 'croprect'}
+# records that store whole `lines` vectors / layer lists and put the STORED vectors back on redo (a stale shape)
+SNAPSHOT = {'palmode', 'ice', 'replfont', 'fontslot', 'remfont', 'rotate'}
+F_SCROLL_ONE_ROW, F_SCROLL_ROWS, F_SAUCE, F_ADDFONT, F_SETFONT, F_FONTSLOT = 1, 2, 4, 8, 16, 32
 
-def classify(code, cat, names, doc):
-    """signature of a failing minimised history"""
+def rowcol_then_snapshot(names):
+    """a row/column operation followed (later in the history) by an operation whose record re-imposes stored `lines` vectors"""
+    seen = False
+    for n in names:
+        if n in ROWCOL: seen = True
+        elif seen and n in SNAPSHOT: return True
+    return False
+
+def classify(code, cat, names, doc, facts=0):
+    """signature of a failing minimised history; a known signature only when the precondition of that defect holds on it"""
     kind = CODE.get(code, 'code%d' % code)
     ns = set(names)
-    sauce2 = doc.split()[6] == '2' if doc.startswith('B ') else False
-    if cat == 'sauce' and ns & RESIZE and sauce2: return 'C08-resize-rewrites-sauce-size'
-    if cat == 'fonts' and ns & SETFONT: return 'C08-setfont-records-slot0'
-    if cat == 'fonts' and 'addfont' in ns: return 'C08-addfont-overwrites-slot'
-    if ns & ROWCOL and (cat in ('cell', 'layer-size', '') ): return 'C08-rowcol-raw-lines'
-    if ns & SCROLL and 'sel' in ns and cat in ('cell', ''): return 'C08-scroll-area-raw-lines'
+    if cat == 'sauce' and ns & RESIZE and facts & F_SAUCE: return 'C08-resize-rewrites-sauce-size'
+    if cat == 'fonts' and ns & SETFONT and facts & F_SETFONT: return 'C08-setfont-records-slot0'
+    if cat == 'fonts' and 'addfont' in ns and facts & F_ADDFONT: return 'C08-addfont-overwrites-slot'
+    if cat == 'fonts' and 'fontslot' in ns and facts & F_FONTSLOT: return 'C08-fontslot-overwrites-slot'
+    if cat in ('cell', 'layer-size', '') and rowcol_then_snapshot(names): return 'C08-rowcol-raw-lines'
+    if cat in ('cell', '') and ns & SCROLL and facts & F_SCROLL_ONE_ROW: return 'C08-scroll-area-raw-lines'
     return 'C08-%s%s:%s' % (kind, ('/' + cat) if cat else '', '+'.join(sorted(ns)))
 
 # ---------------------------------------------------------------------------------------------------------------
@@ -88,8 +120,21 @@ DIRECTED = [
     ('B 12 8 0 1 0 2 L 12 8 0 0 1 0 2 5', ['resize 0 6 4']),
     ('B 12 8 0 1 3 0 L 12 8 0 0 1 0 2 5', ['addfont 0']),
     ('B 12 8 0 1 3 0 L 12 8 0 0 1 0 2 5', ['fontpage 2', 'setfont 1']),
+    ('B 12 8 0 1 3 0 L 12 8 0 0 1 0 2 5 F 2 5 F 3 6', ['fontslot 2 3']),
     ('B 12 8 0 1 0 0 L 12 8 0 0 1 0 2 5', ['sel 2 1 5 2 0', 'scrup']),
     ('B 12 8 0 1 0 0 L 12 8 0 0 1 0 0 5', ['jleft', 'delcol', 'palmode 0']),
+    # insert / delete row and column with HIDDEN content (rows and columns stored outside `size`): every stored row takes part in redo and undo
+    ('B 80 25 0 1 0 0 L 80 25 0 0 1 0 2 7', ['lsize 0 80 20', 'inscol']),
+    ('B 80 25 0 1 0 0 L 80 25 0 0 1 0 2 7', ['lsize 0 80 20', 'caret 5 3', 'delcol']),
+    ('B 80 25 0 1 0 0 L 80 25 0 0 1 0 2 7', ['lsize 0 60 20', 'caret 70 22', 'inscol', 'delcol', 'insrow', 'delrow']),
+    ('B 12 8 0 1 0 0 L 12 8 0 0 1 0 4 5', ['caret 2 1', 'inscol']),
+    ('B 12 8 0 1 0 0 L 12 8 0 0 1 0 4 5', ['caret 2 1', 'delcol']),
+    ('B 12 8 0 1 0 0 L 12 8 0 0 1 0 4 5', ['caret 2 1', 'insrow']),
+    ('B 12 8 0 1 0 0 L 12 8 0 0 1 0 4 5', ['caret 2 1', 'delrow']),
+    ('B 12 8 0 1 0 0 L 12 8 0 0 1 0 4 5', ['caret 13 8', 'inscol', 'delrow', 'delcol', 'insrow']),
+    ('B 12 8 0 1 0 0 L 12 8 0 0 1 0 2 5', ['lsize 0 6 4', 'caret 2 1', 'inscol', 'delcol', 'insrow', 'delrow']),
+    ('B 12 8 0 1 0 0 L 12 8 0 0 1 0 2 5', ['lsize 0 6 4', 'caret 8 6', 'delcol', 'delrow', 'lsize 0 12 8']),
+    ('B 12 8 0 1 0 0 L 12 8 0 0 1 0 3 5', ['resize 0 6 4', 'lsize 0 5 3', 'caret 1 1', 'insrow', 'inscol']),
 ]
 
 def search(ctx, broken):
@@ -146,9 +191,11 @@ def search(ctx, broken):
             continue
         code, step, nmin = v[0], v[1], v[2]
         idx = v[3:3 + nmin]; det = v[3 + nmin:]
+        facts = 0
+        if len(det) >= 2 and det[-2] == -777: facts = det[-1]; det = det[:-2]
         names = [G.op_name(ops[i]) for i in idx]
         cat = CAT.get(det[0], '') if code in (3, 6, 9, 10) and det else ''
-        sig = classify(code, cat, [n for n in names if n not in ('caret', 'cur', 'mirror')], doc)
+        sig = classify(code, cat, [n for n in names if n not in ('caret', 'cur', 'mirror')], doc, facts)
         classes[sig] = classes.get(sig, 0) + 1
         failures.append({'signature': sig, 'input': hist_case(int(c.split()[1]), doc, [ops[i] for i in idx]),
                          'impl': v[:3] + det, 'expected': 'undo/redo restore the recorded snapshots',
@@ -332,9 +379,12 @@ def correspondence(ctx):
                 k = nb - 1
                 nxt.append((d, ops[:k] + ops[k + 1:]))
         hist = nxt
-    return {'cases': total, 'disagreements': dis, 'distinct_nontrivial': len(nontriv),
-            'distribution': {'steps_by_operation': opcount, 'outcomes': outcomes, 'model_errors': model_errors[:2]},
-            'samples': [trace_case(*C_DIRECTED[0])[:300]]}
+    import sys
+    xr = X.correspondence_x(ctx, sys.modules[__name__], ctx.n(250, 1500))
+    return {'cases': total + xr['cases'], 'disagreements': dis + xr['disagreements'], 'distinct_nontrivial': len(nontriv) + xr['distinct_nontrivial'],
+            'distribution': {'layer_document': {'cases': total, 'steps_by_operation': opcount, 'outcomes': outcomes, 'model_errors': model_errors[:2]},
+                             'full_document': dict(xr['distribution'], cases=xr['cases'])},
+            'samples': [trace_case(*C_DIRECTED[0])[:300], X.xtrace_case(X.X_DIRECTED[0][0], X.X_DIRECTED[0][1], sys.modules[__name__])[:300]]}
 
 def replay(ctx, body):
     from vlib import driver
@@ -350,23 +400,32 @@ def replay(ctx, body):
         v = r[1]; print('  %s at step %d' % (CODE.get(v[0], v[0]), v[1]))
     return 0 if good else 1
 
-LEVEL_TEXT = ('Machine-checked proof (Coq, closed under the global context), PARTIAL by design. (1) Framework, fully general: for ANY document '
+LEVEL_TEXT = ('Machine-checked proof (Coq, closed under the global context), PARTIAL. (1) Framework, fully general: for ANY document '
               'type, undo-operation type (payloads may be re-captured), and observational equivalence, a model of push_undo_action / push_plain_undo / '
               'nested AtomicUndoGuard folding / undo / redo with a zipper invariant; theorems history_sound and interleaving_sound: after any sequence '
               'of sound edits, EVERY interleaving of undo and redo steps succeeds and lands on the entry of one fixed timeline the walk points at '
               '(k undos = k steps back, k redos = k steps forward), undo_all_redo_all, new_edit_clears_redo, atomic groups (nested) are sound. '
-              '(2) Per-operation soundness and the composed theorem undo_redo_history for set_char (incl. mirror mode), swap_char, add/remove/raise/'
-              'lower/duplicate/clear layer, toggle visibility, move layer, set layer size, resize buffer, selection set/clear/deselect, erase selection, '
-              'make layer transparent, the nine row/column wrappers (center_line, justify_line_*, erase_row*, erase_column*), '
-              'and ALL snapshot-frame area operations at once (area_op_sound: any mutation that stays inside the area; instantiated for justify '
-              'left/right, center, flip x/y), on the tree with six small fix commits (UndoLayerChange, UndoSetChar on alpha-locked layers, swap_char, '
-              'stale current layer, center, whole-layer scroll); equivalence = every stored cell incl. content hidden outside the layer size. '
-              '(3) Everything else (merge, crop/resize with layers, insert/delete row/column, scroll area, rotate, stamp down, paste/anchor, mask selection, '
-              'ice/palette/font operations) is NOT proved: covered by the differential stage and by the oracle on the real code; five known defect '
-              'classes there are listed as known findings.')
+              '(2) Layer document (buffer size, layers with every stored cell): per-operation soundness and undo_redo_history for set_char (incl. mirror '
+              'mode), swap_char, add/remove/raise/lower/duplicate/clear layer, toggle visibility, move layer, set layer size, resize buffer, selection '
+              'set/clear/deselect, erase selection, make layer transparent, the nine row/column wrappers and ALL snapshot-frame area operations '
+              '(justify left/right, center, flip x/y), on the tree with six small fix commits. '
+              '(3) Extension, FULL document (layer document + palette, font table, SAUCE record, ice/palette/font mode; caret font page and selection mask '
+              'as extra state): everything of (2) is lifted, and per-operation soundness + the composed theorem x_undo_redo_history (every interleaving of '
+              'undo/redo after any history of modelled operations, each applied outside its known class) now also cover switch_to_palette, '
+              'update_sauce_data, switch_to_font_page, set_ansi_font / set_sauce_font, add_ansi_font, remove_font, change_font_slot, replace_font_usage, '
+              'set_ice_mode and set_palette_mode (for any conversion), merge_layer_down, anchor_layer, stamp_layer_down, paste_clipboard_data, '
+              'resize_buffer with layers, crop, crop_rect, add_selection_to_mask, inverse_selection, enumerate_selections, clear/erase selection and the '
+              'wrappers reading the selection mask, flip x/y with the maps of the font table, rotate_layer, scroll_area_up/down over the whole layer '
+              'width, scroll_area_left/right. Where the code is wrong the theorem is stated outside a known class with a Coq witness inside it: set font in Unlimited/FixedSize mode '
+              'when the caret page differs from slot 0, add font / change font slot onto an occupied slot, resize/crop with a SAUCE record of another size. '
+              'Insert/delete row and column are modelled and proved as an exact round trip only (they are not invariant under the equivalence: witness). '
+              '(4) NOT proved (oracle on the real code only): scroll_area_up/down over part of the layer width, add_floating_layer, '
+              'layer properties, sixels; five + one known defect classes are listed as known findings.')
 LEVEL_NOTE = ('Trusted: Coq kernel + vm_compute; translator/gen_undo.py (guard expressions of Layer::set_char/restore_char/can_set_char/get_char and '
               'AtomicUndoGuard::drop are translated, the statement skeletons of the layer primitives and of the undo machinery in editor/mod.rs are '
-              'pinned token for token); the hand-written operation model, tied by differential traces on raw layer content after every step; '
+              'pinned token for token); the hand-written operation models (layer document and full document), tied by differential traces on raw layer content, palette, fonts, '
+              'SAUCE, modes, selection and mask after every step; parameters read from the implementation by probes (flip maps per font, DOS palette, font ids, '
+              'rotate table) over which the theorems quantify; '
               'the stage S oracle and its classification of failing minimised histories into known classes. Model arithmetic is in Z (no i32 overflow).')
 TECHNIQUE = ('Coq proof: greatest-fixpoint soundness relation for undo records (explicit invariant pair), zipper invariant by induction over the '
              'interleaving, observational congruence of every layer primitive; translator tie for guards; differential traces; oracle on the real code')
